@@ -68,6 +68,7 @@ pub fn main(args: &[String]) -> i32 {
         let mut alist_map = BTreeMap::new();
         alist_map.insert(AttributeTag::from(0u8), AttributeKind::from(55));
         alist_map.insert(AttributeTag::from(8u8), AttributeKind::from(31));
+        alist_map.insert(AttributeTag::from(3u8), AttributeKind::from(20200101));
         let valid_to = YearMonth::try_from(2022 << 8 | 5).unwrap();
         let created_at = YearMonth::try_from(2020 << 8 | 5).unwrap();
         let alist: AttributeList<<ArCurve as Curve>::Scalar, AttributeKind> = AttributeList { valid_to, created_at, max_accounts, alist: alist_map, _phantom: Default::default() };
@@ -114,7 +115,7 @@ pub fn main(args: &[String]) -> i32 {
             }
         };
         // ---- the remaining operations
-        let mut cred: Option<(Cdi, Either<TransactionTime, AccountAddress>)> = None;
+        let mut cred: Option<(Cdi, Either<TransactionTime, AccountAddress>, CredentialData)> = None;
         for (n, op) in ops.iter().enumerate().skip(1) {
             let name = op["op"].as_str().unwrap();
             let exp_ok = op["ok"].as_bool().unwrap();
@@ -139,11 +140,11 @@ pub fn main(args: &[String]) -> i32 {
                     if exp_ok && r.is_err() {
                         return fail(format!("op {}: a credential with counter {} (limit {}) can be created", n, counter, max_accounts), json!(true), json!(false));
                     }
-                    cred = r.ok().map(|(cdi, _)| (cdi, noe));
+                    cred = r.ok().map(|(cdi, _)| (cdi, noe, acc));
                 }
                 "verify" => {
-                    let (cdi, noe) = match &cred {
-                        Some(c) => c,
+                    let (cdi, noe, acc) = match &cred {
+                        Some(c) => (&c.0, &c.1, &c.2),
                         None => continue,
                     };
                     let p = op["perturb"].as_str().unwrap();
@@ -167,6 +168,15 @@ pub fn main(args: &[String]) -> i32 {
                             let (xa, xb) = (c2.values.ar_data[&a].clone(), c2.values.ar_data[&b].clone());
                             *c2.values.ar_data.get_mut(&a).unwrap() = xb;
                             *c2.values.ar_data.get_mut(&b).unwrap() = xa;
+                            check(&c2, &global, &ip_info, ars_infos, noe)
+                        }
+                        "extra_sharing_coeff" => {
+                            let mut unsigned = UnsignedCredentialDeploymentInfo { values: cdi.values.clone(), proofs: cdi.proofs.id_proofs.clone() };
+                            unsigned.proofs.commitments.cmm_id_cred_sec_sharing_coeff.push(concordium_base::pedersen_commitment::Commitment(ArCurve::zero_point()));
+                            let c2 = Cdi {
+                                values: unsigned.values.clone(),
+                                proofs: CredDeploymentProofs { id_proofs: unsigned.proofs.clone(), proof_acc_sk: AccountOwnershipProof { sigs: acc.sign(noe, &unsigned) } },
+                            };
                             check(&c2, &global, &ip_info, ars_infos, noe)
                         }
                         "bitflips" => {
@@ -196,8 +206,8 @@ pub fn main(args: &[String]) -> i32 {
                     }
                 }
                 "revoke" => {
-                    let (cdi, _) = match &cred {
-                        Some(c) => c,
+                    let cdi = match &cred {
+                        Some(c) => &c.0,
                         None => continue,
                     };
                     let set: Vec<u32> = op["revokers"].as_array().unwrap().iter().map(|x| x.as_u64().unwrap() as u32).collect();
